@@ -180,8 +180,12 @@ def parse_puzz_link_url(url):
             pos += ord(body[i]) - ord("f")
             i += 1
         else:
+            if pos >= height * width:
+                raise ValueError("compass clue outside the board")
             num = [-1, -1, -1, -1]
             for j in range(4):
+                if i >= len(body):
+                    raise ValueError("truncated compass clue")
                 if body[i] == "-":
                     num[j] = int(body[i + 1 : i + 3], 16)
                     i += 3
